@@ -6,3 +6,11 @@ def py_replay(mods, scn, cse, presentation=None, force_ekf=False, keep_trace=Fal
     r = pyrep.replay(scn, mods["ui"], mods["python"], cse=cse, presentation=presentation, force_ekf=force_ekf)
     return {"mismatches": [dict(m) for m in r.mismatches], "values": r.values, "steps": r.steps,
             "skipped": r.skipped, "trace": r.trace if keep_trace else None}
+
+
+def mf_replay_batch(mods, scns):
+    import mfrep
+    out = []
+    for s in scns:
+        out.append(mfrep.replay(mods, s))
+    return out
